@@ -68,6 +68,13 @@ fn main() {
         sink.merge(struct_sweep(&run, &[&SIGNED_OLD], &wfs(style, || cat::signatures(false, false)), run.tier.pick(0, 1), &sfx, 48, &no_extra));
     }
 
+    // the same encodings under foreign outer headers (DER OCTET STRING / SEQUENCE / BIT STRING, length prefixes, ...)
+    sink.merge(struct_sweep(&run, &[&DH_PARAMS], &wrapped(&cat::dh_params(false), 2), 0, &sfx, 16, &no_extra));
+    sink.merge(struct_sweep(&run, &[&ECDH_PARAMS, &EC_PARAMETERS], &wrapped(&ecdh, 1), 0, &sfx, 16, &no_extra));
+    sink.merge(struct_sweep(&run, &[&EC_POINT], &wrapped(&pts, 5), 0, &sfx, 16, &no_extra));
+    sink.merge(struct_sweep(&run, &[&SIGNED, &SIGNED_OLD], &wrapped(&cat::signatures(true, false), 1), 0, &sfx, 16, &no_extra));
+    sink.merge(struct_sweep(&run, &[&SIGNED, &SIGNED_OLD], &wrapped(&cat::signatures(false, false), 1), 0, &sfx, 16, &no_extra));
+
     // every size of each variable-length field
     for which in 0..3usize {
         let b = move |n: usize| {
